@@ -481,6 +481,28 @@ def fam_listfind(v, n):
                     break
         ops.append({"op": "find_list", "l": L, "s": rng.choice(L), "m": "find", **flags})
         ops.append({"op": "find_list", "l": L, "s": v.typed_sid(search=0)[1], "m": "find", **flags})
+    # PRE-SORTED lists holding '<name>' and '<name>-2' at a free level ('-' sorts below '/': the order of the
+    # whole strings and the order of the segments disagree), searched with a literal head ending at <name>
+    for _ in range(max(2, nu // 3)):
+        L, leaves = universe(v, with_junk=False)
+        for label, fields in leaves[:2]:
+            pp = prefix_pair(v, label, fields)
+            if not pp:
+                continue
+            L2 = list(L)
+            for _, f in pp[0]:
+                vals = [val for _, val in f]
+                L2 += ["/".join(vals[:i]) for i in range(1, len(vals) + 1)]
+            L2 = sorted(set(L2))
+            segs = [val for _, val in fields]
+            fa, fb = fields, pp[0][0][1]
+            i = [j for j in range(min(len(fa), len(fb))) if fa[j][1] != fb[j][1]][0]
+            head = segs[:i + 1]
+            rest = len(segs) - i - 1
+            for s in ["/".join(head + ["*"] * k) for k in range(1, rest + 1)] + ["/".join(head + ["**"])] + pp[1]:
+                for fl in ({"ps": True}, {}):
+                    ops.append({"op": "find_list", "l": L2, "s": s, "m": "find", **fl})
+            break
     ops.append({"op": "find_list", "l": ["hamlet/a/char/a/model/v001/w/ma", "hamlet/a/char/a-b/model/v001/w/ma"], "s": "hamlet/a/char/>/model/*/w/*", "m": "find"})
     ops.append({"op": "find_list", "l": ["hamlet/a/char/x/model/v001/w/ma", "hamlet/a/char/x/model/v001/w/mb"], "s": "hamlet/a/char/x/model/v001/w/maya", "m": "find"})
     ops.append({"op": "find_list", "l": ["hamlet/a/char/[x]"], "s": "hamlet/a/char/[x]", "m": "find"})
